@@ -44,6 +44,7 @@
 #define E_PAYLOAD2 18
 #define E_COPY_RNG 19
 #define E_COPY_PLANS 21
+#define E_REPLAY_ENTER 22
 #ifndef REPLAY_MAX
 #define REPLAY_MAX 15                   /* longest history handed to replayTransitions() */
 #endif
@@ -214,6 +215,9 @@ static int decide(int s, int m) {
   __CPROVER_assume((d & ~0xfff) == 0 && kind >= 1 && kind <= 7 && ((CB_KINDS >> kind) & 1) && dest < NS);
 #ifdef CB_DEST_NONROOT
   __CPROVER_assume(dest > 0);
+#endif
+#ifdef CB_ONLY_LEAVES
+  __CPROVER_assume(st_kind[s] == 0 && st_kind[dest] == 0);    /* requests come from plain states and name plain states */
 #endif
 #ifdef KF_C04_ORTHO_ROOT_REQ
   /* known finding F15: on an ORTHOGONAL-ROOT machine a request aimed at the root, combined in one step with a request into
@@ -739,6 +743,37 @@ int main(void) {
     __CPROVER_assert(vf_requests_count(I) == 0 && vf_requests_count(&second_) == 0, "C10 fresh instances have an empty queue");
     return 0; }
 #endif
+#if ENTRY == E_REPLAY_ENTER
+  /* C09, Manual activation: the authority is entered from scratch - regions choose by their declared strategy, entry
+     guards may redirect the initial activation (recorded); the history replayed into a never-activated replica by
+     replayEnter() reproduces the configuration without consulting a guard */
+  unsigned dest = 0; (void)dest;                 /* (the step oracles further down are compiled but never reached) */
+  { phase = 0; construct();
+    replica = inst;
+    choose_utilities();
+    sel_fixed = 1;
+    for (int c = 0; c < NC; c++) {
+      sel_val[c] = nondet_uchar();
+      __CPROVER_assume(sel_val[c] < co_width[c]);
+    }
+    phase = 1; budget = CB_BUDGET; cancel_ok = 0;     /* a veto of the INITIAL activation is outside the statement (the library breaks) */
+    vf_enter(I);
+    phase = 0;
+    END;
+    unsigned pc = vf_prev_count(I);
+    COVER(pc >= 1);
+    const uint8_t *a = vf_compo_active(I), *r = vf_compo_resumable(I);
+    __CPROVER_assert(inv_raw(), "C01 Inv holds after enter()");
+    if (pc > 0) {
+      phase = 2; int ok = vf_replay_enter(&replica, I); phase = 0;
+      __CPROVER_assert(ok, "C09 replayEnter() accepts the recorded history");
+      __CPROVER_assert(!guard_in_replay, "C09 replay does not consult guards");
+      const uint8_t *ra = vf_compo_active(&replica), *rr = vf_compo_resumable(&replica);
+      for (int c = 0; c < NC; c++) __CPROVER_assert(ra[c] == a[c] && rr[c] == r[c], "C09 replayEnter() reproduces the configuration of the authority's enter()");
+      __CPROVER_assert(vf_prev_count(&replica) == pc, "C09 the replica records the replayed history");
+    }
+    return 0; }
+#endif
 #ifdef FROM_CONSTRUCTION
   /* whole-life: monitor the activation performed by the constructor (Automatic) / enter() (Manual) as well */
   phase = 1; budget = 0; cancel_ok = 0;
@@ -860,7 +895,8 @@ int main(void) {
     phase = 0;
     vf_buf_init(&b1); vf_buf_init(&b2);
     uint8_t* bd = vf_buf_data(&b1);
-    for (unsigned i = 0; i < (SERIAL_BITS + 7) / 8; i++) {
+    __CPROVER_assert(vf_buf_bytes() == (SERIAL_BITS + 7) / 8, "C08 the size of the serialization buffer follows from the structure");
+    for (unsigned i = 0; i < (SERIAL_BITS + 7) / 8 && i < vf_buf_bytes(); i++) {
       uint8_t junk = nondet_uchar();
       bd[i] = junk;
     }
@@ -1105,6 +1141,7 @@ int main(void) {
     for (int c = 0; c < NC; c++) __CPROVER_assert(vf_compo_active(I)[c] == vf_compo_active(&orig2)[c], "C10 an instance makes the same random choices whatever a copy of it does (its generator is its own)");
   }
 #elif ENTRY == E_CONSTRUCT_PAIR
+#elif ENTRY == E_REPLAY_ENTER
 #elif ENTRY == E_NONE
 #else
 #error "ENTRY"
@@ -1151,7 +1188,7 @@ int main(void) {
     COVER(dec_of[PLAN_HEAD] == 0x1000); COVER(dec_of[st_parent[PLAN_HEAD]] == 0x1000 && PL_COUNT() >= 1);   /* an enclosing head's own result does not keep the nested plan from running */
 #endif
 #endif
-#ifdef P_C09
+#if defined(P_C09) && ENTRY == E_IMM && CB_BUDGET > 0
     COVER(vf_prev_count(I) == 2); COVER(rounds >= 2 && !r1c && r2c); COVER(rounds >= 1 && r1c && vf_prev_count(I) == 0);
 #endif
 #ifdef P_C13
